@@ -16,7 +16,7 @@ import sys
 VERIF = os.path.dirname(os.path.dirname(os.path.abspath(__file__)))
 REPO = '/repo'
 PY = '/venv/bin/python'
-SCRATCH = '/tmp/mut/verify'
+SCRATCH = '/tmp/mut/verify-%d' % os.getpid()
 
 
 def sh(cmd, cwd=None, timeout=1800):
@@ -102,6 +102,39 @@ def run(sid, props, tier='quick'):
         json.dump(meta, f, indent=1)
 
 
+def run_scratch(sid, props, tier='quick'):
+    """Like run(), but on a scratch worktree selected with VERIF_REPO (leaves /repo alone; usable in parallel)."""
+    d = os.path.join(VERIF, 'seeded', sid)
+    patch = os.path.join(d, 'patch.diff')
+    scratch = '/tmp/mut/scratch-%s-%d' % (sid, os.getpid())
+    rc, out = sh('git -C %s worktree add -q --detach %s HEAD' % (REPO, scratch))
+    assert rc == 0, out
+    results = {}
+    try:
+        rc, out = sh('git apply %s || git apply -3 %s' % (patch, patch), cwd=scratch)
+        if rc != 0:
+            print('patch does not apply: ' + out[-500:])
+            return
+        for p in props:
+            rc, out = sh('VERIF_REPO=%s %s check.py %s --tier %s --no-evidence' % (scratch, PY, p, tier), cwd=VERIF, timeout=7200)
+            viol = [l for l in out.splitlines() if l.startswith('VIOLATION')]
+            sigs = [l.strip() for l in out.splitlines() if l.strip().startswith('sig=')]
+            verdict = 'DETECTED' if rc == 1 and viol else ('INTERNAL-ERROR' if rc == 2 else 'MISSED')
+            results[p] = verdict
+            print('%s %s by %s (rc=%d)' % (sid, verdict, p, rc))
+            for s_ in sigs[:3]:
+                print('    ' + s_[:300])
+            if rc == 2:
+                print(out[-1500:])
+    finally:
+        sh('git -C %s worktree remove --force %s' % (REPO, scratch))
+    mp = os.path.join(d, 'meta.json')
+    meta = json.load(open(mp))
+    meta.setdefault('check_results', {}).update(results)
+    with open(mp, 'w') as f:
+        json.dump(meta, f, indent=1)
+
+
 def reconfirm(sid):
     """Re-validate a stored seed against the current /repo HEAD (after fix commits)."""
     d = os.path.join(VERIF, 'seeded', sid)
@@ -134,6 +167,9 @@ def reconfirm(sid):
 
 
 if __name__ == '__main__':
+    if sys.argv[1] == 'run-scratch':
+        run_scratch(sys.argv[2], sys.argv[3:], os.environ.get('MUT_TIER', 'quick'))
+        sys.exit(0)
     if sys.argv[1] == 'reconfirm':
         for sid in sys.argv[2:]:
             reconfirm(sid)
